@@ -194,7 +194,7 @@ func newVerifier(e *Engine, p *packages.Package, fc *FuncContract) *Verifier {
 		counter: map[string]int{}, trusted: map[string]bool{}, unspec: map[string]bool{}, inlined: map[string]bool{}, assumed: map[string]bool{},
 		windows: map[string]*winInfo{}, lits: map[int]litInfo{}, heapSorts: map[string]string{}, scanned: map[ast.Node]bool{},
 		reslicedOnly: map[*types.Var]bool{}, globalsWritten: map[string]bool{}, pendingHavoc: map[string]bool{}, specUsed: map[string]bool{},
-		lemmasUsed: map[string]bool{}, normDone: map[string]bool{}, pathCap: 2000, refRank: map[string]int{}, allocRank: map[string]int{}}
+		lemmasUsed: map[string]bool{}, normDone: map[string]bool{}, pathCap: 2000, refRank: map[string]int{}, allocRank: map[string]int{}, axiomSet: map[*Term]bool{}}
 	if fc != nil && fc.Mode != "" {
 		v.mode = fc.Mode
 	}
@@ -253,6 +253,10 @@ func (e *Engine) verifyFunc(p *packages.Package, fc *FuncContract, onlyProps map
 	v.scanBoxed(body, v.info)
 	v.curProps = fc.Props
 	cases := fc.clauses("cases")
+	for _, c := range fc.Clauses {
+		c.hit = false
+	}
+	defer v.checkAssertMarkers()
 	if len(cases) == 0 {
 		v.runCase(p, fc, decl, body, lit, onlyProps, nil, "")
 		return v
@@ -277,6 +281,7 @@ func (e *Engine) verifyFunc(p *packages.Package, fc *FuncContract, onlyProps map
 func (v *Verifier) runCase(p *packages.Package, fc *FuncContract, decl *ast.FuncDecl, body *ast.BlockStmt, lit *ast.FuncLit, onlyProps map[string]bool, caseExprs []*CExpr, caseLabel string) {
 	e := v.eng
 	v.caseLabel = caseLabel
+	v.paramIn = map[string]*Term{}
 	v.params = nil
 	v.results = nil
 	override := map[string]*CExpr{}
@@ -486,6 +491,15 @@ func (v *Verifier) runCase(p *packages.Package, fc *FuncContract, decl *ast.Func
 		}
 		if len(fc.clauses("assigns")) > 0 || fc.Flags["pure"] {
 			v.checkFrame(st, env, decl.Pos())
+		}
+	}
+}
+
+// unusedAsserts reports ghost assertions whose marker statement was not found.
+func (v *Verifier) checkAssertMarkers() {
+	for _, c := range v.fc.Clauses {
+		if c.Kind == "assert" && !c.hit {
+			v.obligs = append(v.obligs, &Oblig{Name: v.fnName + "#subset:assert-marker", Class: "subset", Func: v.fnName, Goal: TFalse, Desc: "ghost assertion marker not found in the function body: " + c.Marker, Verdict: "error", Props: v.fc.Props})
 		}
 	}
 }
@@ -762,6 +776,9 @@ func (v *Verifier) assumeAxiom(s *State, env *CEnv, ax *Axiom) {
 	t := env.at(s, s).trBool(ax.Expr)
 	s.pc = s.pc[:n] // drop side facts produced while translating
 	s.assume(t)
+	for _, p := range s.pc[n:] {
+		v.axiomSet[p] = true
+	}
 	v.trusted["axiom "+ax.Name+" ("+ax.File[strings.LastIndex(ax.File, "/")+1:]+")"] = true
 }
 
